@@ -17,6 +17,10 @@ RUST = {
 }
 TERMINAL = {"O", "OO", "OP", "R", "RR", "P", "V", "VV", "B", "U", "T2O", "VP", "VE"}
 ITER = {"I", "IP", "IE", "IO", "IR", "II"}
+# async worlds: futures (by output), try-future, streams (by item). Only generated inside async macros.
+FUT_OUT = {"FP": "u32", "FO": "Option<u32>", "TF": "Result<u32, u8>", "FV": "Vec<u32>", "FVV": "(Vec<u32>, Vec<u32>)", "FU": "usize"}
+ASYNC_WORLDS = set(FUT_OUT) | {"FFP", "S", "SP", "SE", "SR", "SS", "FB"}
+RDY = "futures::future::ready"
 
 
 class Member:
@@ -235,6 +239,83 @@ class G:
         elif w in ("OREF", "RREF"):
             ty = RUST[w]
             add("then", "->", "N", one("o", ty, "o", "", None, annotate=True))
+        # ---------------- async worlds (receivers are futures / streams) ----------------
+        if not sync:
+            R32 = "futures::future::Ready<u32>"
+            if w == "P":
+                add("then", "->", "FP", lambda: [(RDY, 0)], "then/ready")
+                add("then", "->", "TF", one("p", "u32", "&p", RDY + "(if p < 10 { Ok::<u32, u8>(p) } else { Err(8u8) })", "futures::future::Ready<Result<u32, u8>>", annotate=True))
+                add("then", "->", "S", one("p", "u32", "&p", "futures::stream::iter(vec![p, p / 2, 3])", None, annotate=True))
+                add("then", "->", "FO2", one("p", "u32", "&p", RDY + "(if p > 2 { Some(p - 1) } else { None })", "futures::future::Ready<Option<u32>>", annotate=True), "then/ready_option")
+            elif w == "PR":
+                add("then", "->", "FB", one("r", "&u32", "r", RDY + "(*r > 1)", "futures::future::Ready<bool>", annotate=True))
+                add("then", "->", "N", one("r", "&u32", "r", "", None, annotate=True))
+            elif w == "E":
+                add("then", "->", "TF", one("e", "u8", "&e", RDY + "(if e > 5 { Ok::<u32, u8>(e as u32) } else { Err(e) })", "futures::future::Ready<Result<u32, u8>>", annotate=True))
+            elif w == "FP":
+                add("map", "|>", "FP", one("v", "u32", "&v", "v.wrapping_add(1)", "u32"), "fut/map")
+                add("map", "|>", "FP", lambda: [("inc::<%d>" % self.nid(), 0)], "fut/map_fnpath")
+                add("map", "|>", "FO", one("v", "u32", "&v", "if v > 3 { Some(v) } else { None }", "Option<u32>"), "fut/map")
+                add("map", "|>", "FFP", one("v", "u32", "&v", RDY + "(v.wrapping_mul(2))", R32), "fut/map_to_future")
+                add("map", "|>", "FV", one("v", "u32", "&v", "vec![v, v + 1]", "Vec<u32>"), "fut/map")
+                add("inspect", "??", "FP", one("v", "&u32", "v", "", None), "fut/inspect")
+                add("dot", "..", "FP", lambda: [("boxed()", 0)], "fut/dot_boxed")
+                add("dot", ">.", "S", lambda: [("into_stream()", 0)], "fut/dot_into_stream")
+                add("then", "->", "FP", lambda: [("fut_inc::<%d, _>" % self.nid(), 0)], "fut/then_fnpath")
+            elif w == "FFP":
+                add("flatten", "^^>", "FP", lambda: [], "fut/flatten")
+            elif w == "FO":
+                add("map", "|>", "FP", one("o", "Option<u32>", "&o", "o.unwrap_or(0)", "u32"), "fut/map")
+                add("inspect", "??", "FO", one("o", "&Option<u32>", "o", "", None), "fut/inspect")
+            elif w == "TF":
+                add("map", "|>", "TF", one("r", "Result<u32, u8>", "&r", "r.map(|x| x.wrapping_add(1))", "Result<u32, u8>"), "tryfut/map")
+                add("and_then", "=>", "TF", one("v", "u32", "&v", RDY + "(if v % 2 == 0 { Ok::<u32, u8>(v / 2) } else { Err(9u8) })", "futures::future::Ready<Result<u32, u8>>"), "tryfut/and_then")
+                add("or_else", "<=", "TF", one("e", "u8", "&e", RDY + "(if e > 4 { Ok::<u32, u8>(e as u32) } else { Err(e + 1) })", "futures::future::Ready<Result<u32, u8>>"), "tryfut/or_else")
+                add("map_err", "!>", "TF", one("e", "u8", "&e", "e.wrapping_add(1)", "u8"), "tryfut/map_err")
+                add("inspect", "??", "TF", one("r", "&Result<u32, u8>", "r", "", None), "tryfut/inspect")
+                add("dot", "..", "FP", lambda: [("unwrap_or_else(|e| e as u32)", 0)], "tryfut/dot_unwrap_or_else")
+                add("dot", ">.", "SR", lambda: [("into_stream()", 0)], "tryfut/dot_into_stream")
+            elif w == "FV":
+                add("map", "|>", "FU", one("v", "Vec<u32>", "&v", "v.len()", "usize"), "fut/map")
+                add("map", "|>", "FP", one("v", "Vec<u32>", "&v", "v.iter().fold(0u32, |a, b| a.wrapping_add(*b))", "u32"), "fut/map")
+            elif w == "FVV":
+                add("map", "|>", "FU", one("(a, b)", "(Vec<u32>, Vec<u32>)", "&(&a, &b)", "a.len() + b.len() * 10", "usize"), "fut/map")
+            elif w == "FU":
+                add("map", "|>", "FP", one("u", "usize", "&u", "u as u32", "u32"), "fut/map")
+            elif w == "S":
+                add("map", "|>", "S", one("v", "u32", "&v", "v.wrapping_mul(2)", "u32"), "stream/map")
+                add("map", "|>", "S", lambda: [("mk_inc(%d)" % self.nid(), 0)], "stream/map_callexpr")
+                add("map", "|>", "SP", one("v", "u32", "&v", "(v, v % 3)", "(u32, u32)"), "stream/map")
+                add("map", "|>", "SR", one("v", "u32", "&v", "if v % 3 == 0 { Err(v as u8) } else { Ok::<u32, u8>(v) }", "Result<u32, u8>"), "stream/map")
+                add("map", "|>", "SS", one("v", "u32", "&v", "futures::stream::iter(vec![v, v + 1])", None), "stream/map_to_stream")
+                add("filter", "?>", "S", one("v", "&u32", "v", RDY + "(*v % 2 == 1)", "futures::future::Ready<bool>"), "stream/filter")
+                add("filter_map", "?|>", "S", one("v", "u32", "&v", RDY + "(if v > 2 { Some(v - 1) } else { None })", "futures::future::Ready<Option<u32>>"), "stream/filter_map")
+                add("chain", ">@>", "S", lambda: [self.val("futures::stream::iter(vec![10u32, 11])")], "stream/chain")
+                add("enumerate", "|n>", "SE", lambda: [], "stream/enumerate")
+                add("zip", ">^>", "SP", lambda: [self.val("futures::stream::iter(vec![20u32, 21, 22])")], "stream/zip")
+                add("collect", "=>[]", "FV", lambda: [("Vec<u32>", 0)], "stream/collect_typed")
+                add("collect", "=>[]", "FV", lambda: [("Vec<_>", 0)], "stream/collect_typed_infer")
+                if last:
+                    add("collect", "=>[]", "FV", lambda: [], "stream/collect_untyped")
+                add("fold", "^@", "FP", lambda: [self.val("1u32"), self.cb2(body=RDY + "(acc.wrapping_add(v))", rtype=R32)], "stream/fold")
+                add("inspect", "??", "S", one("v", "&u32", "v", "", None), "stream/inspect")
+                add("dot", "..", "S", lambda: [("skip(1)", 0)], "stream/dot_skip")
+                add("dot", ">.", "S", lambda: [("take(4)", 0)], "stream/dot_take")
+                add("dot", "..", "FU", lambda: [("count()", 0)], "stream/dot_count")
+            elif w == "SP":
+                if last:
+                    add("unzip", "<->", "FVV", lambda: [], "stream/unzip_untyped")
+                add("unzip", "<->", "FVV", lambda: [("u32", 0), ("u32", 0), ("Vec<u32>", 0), ("Vec<u32>", 0)], "stream/unzip_typed")
+                add("map", "|>", "S", one("(a, b)", "(u32, u32)", "&(a, b)", "a.wrapping_add(b)", "u32"), "stream/map")
+            elif w == "SE":
+                add("map", "|>", "S", one("(i, v)", "(usize, u32)", "&(i, v)", "v.wrapping_add(i as u32)", "u32"), "stream/map")
+            elif w == "SS":
+                add("flatten", "^^>", "S", lambda: [], "stream/flatten")
+            elif w == "SR":
+                add("try_fold", "?^@", "TF", lambda: [self.val("2u32"), self.cb2(body=RDY + "(if v != 4 { Ok::<u32, u8>(acc.wrapping_add(v)) } else { Err(4u8) })", rtype="futures::future::Ready<Result<u32, u8>>")], "stream/try_fold")
+                add("collect", "=>[]", "FVR", lambda: [("Vec<Result<u32, u8>>", 0)], "stream/collect_results")
+            elif w == "FVR":
+                add("map", "|>", "FU", one("v", "Vec<Result<u32, u8>>", "&v", "v.iter().filter(|r| r.is_ok()).count()", "usize"), "fut/map")
         return T
 
     def cb2(self, body="acc.wrapping_add(v)", rtype="u32"):
@@ -281,6 +362,15 @@ class G:
                 cands.append((("R", "inspect"), ("??", "RREF", {"N": "R"})))
         if w == "I" and last:
             cands.append((("I", "partition"), ("?&!>", "PR", {"B": "VV"})))
+        if self.flavour == "async":
+            extra = {
+                "FP": [(("FP", "map"), ("|>", "P", {"P": "FP", "O": "FO"})), (("FP", "inspect"), ("??", "PR", {"N": "FP"}))],
+                "TF": [(("TF", "and_then"), ("=>", "P", {"TF": "TF"})), (("TF", "or_else"), ("<=", "E", {"TF": "TF"})), (("TF", "map_err"), ("!>", "E", {"E": "TF"})),
+                       (("TF", "inspect"), ("??", "RREF", {"N": "TF"}))],
+                "S": [(("S", "map"), ("|>", "P", {"P": "S"})), (("S", "filter"), ("?>", "PR", {"FB": "S"})), (("S", "filter_map"), ("?|>", "P", {"FO2": "S"})),
+                      (("S", "inspect"), ("??", "PR", {"N": "S"}))],
+            }
+            cands += extra.get(w, [])
         if not cands:
             return None
         (_, op), (sp, start, ends) = r.choice(cands)
@@ -299,9 +389,9 @@ class G:
                 return []
             path = self.bfs(w, lambda x: x == target)
         else:
-            if w in TERMINAL:
+            if w in TERMINAL or w in FUT_OUT:
                 return []
-            path = self.bfs(w, lambda x: x in TERMINAL)
+            path = self.bfs(w, lambda x: x in TERMINAL or x in FUT_OUT)
         return path
 
     def bfs(self, w, goal):
@@ -407,7 +497,7 @@ def render_ref(ms, recv, ctx):
         if m.inner is not None:
             body = render_ref(m.inner, "__v", ctx)
             clo = "|__v| %s" % body
-            if m.op == "inspect":  # sync inspect wrapper: callback sees a reference, value passes through
+            if m.op == "inspect" and ctx.flavour == "sync":  # sync inspect wrapper: callback sees a reference, value passes through
                 cur = "{ let __x = %s; (%s)(&__x); __x }" % (cur, clo)
             else:
                 cur = "%s.%s(%s)" % (cur, m.op, clo)
@@ -453,7 +543,7 @@ class Prog:
         self.final_annot = None
 
 
-SRC = {"O": ("so", 3), "R": ("sr", 3), "I": ("si", 4), "P": ("sp", 3)}
+SRC = {"O": ("so", 3), "R": ("sr", 3), "I": ("si", 4), "P": ("sp", 3), "FP": ("sf", 3), "TF": ("stf", 3), "S": ("ss", 4)}
 
 
 def gen_prog(pid, rng, kind, length, force=None):
@@ -475,6 +565,8 @@ def gen_prog(pid, rng, kind, length, force=None):
         lo = g.next_id
         if is_try and flavour == "sync":
             start = try_family
+        elif flavour == "async" and rng.random() < 0.6:
+            start = rng.choice(["FP", "TF", "S", "S"])
         else:
             start = rng.choice(["O", "R", "I", "I", "P"])
         fn, nshapes = SRC[start]
@@ -490,8 +582,11 @@ def gen_prog(pid, rng, kind, length, force=None):
         target = None
         # multi-step try semantics (abort after a failed step) are the probe corpus' subject (C05/C06);
         # zoo chains under try macros are single-step
-        allow_defer = flavour == "sync" and not is_try
+        allow_defer = not is_try
         defer_worlds = None
+        if flavour == "async":
+            # a step of an async macro must end in a future: `~` only where the value is one
+            defer_worlds = set(FUT_OUT)
         if is_try and flavour == "sync":
             target = try_family
             defer_worlds = {try_family}
@@ -511,6 +606,16 @@ def gen_prog(pid, rng, kind, length, force=None):
         # fix up range end after generation
         p.branches[-1] = (src, src_cap, start, ms, (lo, g.next_id))
     p.max_id = g.next_id + 1
+    if is_try and flavour == "async":
+        # `try_join!` stops polling at the first failed branch: only the last branch may be a failing TryFuture,
+        # otherwise later branches legitimately never run and the sequential reference would over-demand
+        finals = [end_world(b[3], b[2]) for b in p.branches]
+        if any(f == "TF" for f in finals[:-1]):
+            order = [i for i, f in enumerate(finals) if f != "TF"] + [i for i, f in enumerate(finals) if f == "TF"]
+            if sum(1 for f in finals if f == "TF") > 1:
+                return None
+            # branch ranges are by id, so reordering branches keeps the per-branch trace mapping valid
+            p.branches = [p.branches[i] for i in order]
     for (_, _, _, ms, _) in p.branches:
         def tagwalk(ms, inside):
             for m in ms:
@@ -536,7 +641,7 @@ def needs_annotation(ms):
     if not ms:
         return False
     m = ms[-1]
-    return (m.op == "collect" and not m.operands) or m.op == "partition" or (m.op == "unzip" and not m.operands and m.to == "VV")
+    return (m.op == "collect" and not m.operands) or m.op == "partition" or (m.op == "unzip" and not m.operands and m.to in ("VV", "FVV"))
 
 
 def noalloc_transform(t):
@@ -563,20 +668,26 @@ def render_prog(p, mode="twin"):
     for (src, src_cap, start, ms, _) in p.branches:
         w = end_world(ms, start)
         finals.append(w)
-        t = src + (" " + render_dsl(ms, True, asy) if ms else "")
+        t = src + (" " + render_dsl(ms, True, asy and w not in FUT_OUT or (asy and is_try and w != "TF")) if ms else "")
         if asy:
-            if is_try:
+            if w in FUT_OUT:
+                if is_try and w != "TF":
+                    t += " -> fut_ok"
+            elif is_try:
                 t += " -> |x| futures::future::ready(Ok::<_, u8>(x))"
             else:
                 t += " -> futures::future::ready"
         parts.append(t)
-    if any(f not in TERMINAL for f in finals):
+    if any(f not in TERMINAL and f not in FUT_OUT for f in finals):
+        return None
+    if not asy and any(f in FUT_OUT for f in finals):
         return None
     dsl = ", ".join(parts)
     # result type annotation (needed by untyped collect / partition / unzip at the end)
-    tys = [RUST[f] for f in finals]
+    tys = [FUT_OUT.get(f) or RUST[f] for f in finals]
     if is_try:
         if asy:
+            tys = ["u32" if f == "TF" else t for f, t in zip(finals, tys)]
             inner = tys[0] if n == 1 else "(%s)" % ", ".join(tys)
             rty = "Result<%s, u8>" % inner
         else:
@@ -601,9 +712,15 @@ def render_prog(p, mode="twin"):
                 continue
             if k == 0:
                 recv = hoist(ctx, src, src_cap) if src_cap else src
+            elif asy:
+                recv = "async move { %s }" % names[i]
             else:
                 recv = names[i]
-            chains.append((i, render_ref(st[k], recv, ctx)))
+            c = render_ref(st[k], recv, ctx)
+            step_end = end_world(st[k], start if k == 0 else end_world(st[k - 1], start))
+            if asy and step_end in FUT_OUT:
+                c = "(%s).await" % c  # the macro awaits every step's future
+            chains.append((i, c))
         stmts += ctx.lets
         for i, c in chains:
             stmts.append("let mut %s = %s;" % (names[i], c))
@@ -622,7 +739,12 @@ def render_prog(p, mode="twin"):
             body = inner
         final = body
     elif is_try and asy:
-        final = "Ok::<_, u8>(%s)" % tup
+        # every branch yields a Result: TryFuture branches their own, the others Ok(value); first Err in branch order
+        inner = "Ok::<_, u8>(%s)" % (("(%s)" % ", ".join("v%d" % i for i in range(n))) if n > 1 else "v0")
+        for i in reversed(range(n)):
+            src_i = names[i] if finals[i] == "TF" else "Ok::<_, u8>(%s)" % names[i]
+            inner = "match %s { Ok(v%d) => %s, Err(e) => Err(e) }" % (src_i, i, inner)
+        final = inner
     else:
         final = tup
     ref_body = " ".join(stmts) + " let __res: %s = %s; __res" % (rty, final)
@@ -669,7 +791,7 @@ def gen_forced(pid, rng, kind, world, pick, nth, second=None):
     p.id = pid
     p.kind = kind
     g = G(rng, flavour)
-    for start in ["O", "R", "I", "P"]:
+    for start in (["FP", "TF", "S"] if (flavour == "async" and world in ASYNC_WORLDS) else []) + ["O", "R", "I", "P"]:
         path = [] if start == world else g.bfs(start, lambda x: x == world)
         if path is None:
             continue
@@ -771,6 +893,40 @@ def build_corpus(tier, seed):
                 for attempt in range(4):
                     if keep(gen_forced(0, rng, next_kind(), w, pick, ti)):
                         break
+    # (a') the same for the async worlds (futures, try-futures, streams) under the async macros
+    probe_a = G(random.Random(1), "async")
+    akc = [0]
+
+    def next_async_kind():
+        akc[0] += 1
+        return ASYNC_KINDS[akc[0] % len(ASYNC_KINDS)]
+    for w in ["FP", "FFP", "FO", "TF", "FV", "FVV", "FU", "S", "SP", "SE", "SS", "SR", "FVR"]:
+        for last in (False, True):
+            ts = probe_a.transitions(w, last)
+            base_tags = [t[4] for t in probe_a.transitions(w, False)]
+            for ti in range(len(ts)):
+                if last and ts[ti][4] in base_tags:
+                    continue
+
+                def picka(g, world, is_last, nth, last=last):
+                    tt = g.transitions(world, last)
+                    return g.mk(tt[nth]) if nth < len(tt) else None
+                for attempt in range(6):
+                    if keep(gen_forced(0, rng, next_async_kind(), w, picka, ti)):
+                        break
+    for (w, op) in [("FP", "map"), ("FP", "inspect"), ("TF", "and_then"), ("TF", "or_else"), ("TF", "map_err"), ("TF", "inspect"), ("S", "map"), ("S", "filter"), ("S", "filter_map"), ("S", "inspect")]:
+        for explicit in (True, False):
+            def pickaw(g, world, is_last, nth, op=op, explicit=explicit):
+                for _ in range(40):
+                    m = g.wrapper(world, 0, True)
+                    if m is not None and m.op == op:
+                        m.explicit_close = explicit
+                        m.tag = "w:async:" + op
+                        return m
+                return None
+            for attempt in range(6):
+                if keep(gen_forced(0, rng, next_async_kind(), w, pickaw, 0)):
+                    break
     # (b) every wrapper operator, explicit and implicit closing, depth 1..3
     for (w, op) in list(G.WRAPS.keys()) + [("O", "inspect"), ("R", "inspect"), ("I", "partition")]:
         for explicit in (True, False):
